@@ -26,6 +26,7 @@ Unforgeability itself is a cryptographic statement and out of reach.  Decided he
 import SqiProofs.Torsion
 import SqiModel.VerifyDecision
 import SqiModel.VerifyLevels
+import SqiProofs.Challenge
 import SqiGen.VerifGuard
 
 set_option autoImplicit false
@@ -131,6 +132,97 @@ example : (∀ a b c, 0 ≤ toyHash a b c) ∧ (∀ a b c a' b' c', toyHash a b 
 example : toyOracle.h = toyHash true true true ∧
     verifyDim2 (fun _ _ _ => true) true L1 toyPk toySig toyOracle = true := by
   constructor <;> decide +kernel
+
+/-! ### binding from collision-freeness of SHAKE256 on *distinct byte strings* only
+
+`hash_to_challenge` is modelled by `SqiModel.Challenge.hashToChallenge xof nwords iters` (engineer a4, C20: the XOF is proved
+equal to FIPS-202 SHAKE256 there): the challenge integer is `leNat` of the digest of the byte string
+`hashInput jcom jpk m = enc(j(E_com)) ‖ enc(j(pk)) ‖ m`, re-hashed `iters` times in the heuristic variant. The encoding is
+injective for fixed-width j-encodings (`SqiProofs.Challenge.hashInput_inj` = `SqiProps.C20.hashInput_injective`), so the only
+cryptographic hypothesis left is: the two *distinct byte strings* actually compared do not collide under the digest map. -/
+
+open SqiModel.Challenge in
+/-- no collision of the map `H` on the two given inputs (a statement about one pair of byte strings, not a global injectivity) -/
+def NoCollisionOn (H : List UInt8 → Int) (b b' : List UInt8) : Prop := b ≠ b' → H b ≠ H b'
+
+/-- sqisigndim2, core step: two runs whose recomputed challenges differ cannot both accept the same signature -/
+theorem not_both_accept_dim2 (g : Lvl → RawPk → RawSig → Bool) (K : Lvl) (s : RawSig) (pk pk' : RawPk) (o o' : OracleDim2)
+    (hne : o.h ≠ o'.h) (hacc : verifyDim2 g true K pk s o = true) :
+    verifyDim2 g true K pk' s o' = false := by
+  cases hv : verifyDim2 g true K pk' s o'
+  · rfl
+  · exfalso
+    obtain ⟨_, _, _, _, h1⟩ := (accept_iff_dim2 g K pk s o).1 hacc
+    obtain ⟨_, _, _, _, h2⟩ := (accept_iff_dim2 g K pk' s o').1 hv
+    apply hne
+    by_cases hb : s.challB ≠ 0
+    · rw [if_pos hb] at h1 h2
+      have hc : s.chall ≠ 0 := by intro h0; rw [h0, Int.zero_mul] at h1; omega
+      exact Int.eq_of_mul_eq_mul_left hc (by rw [h1, h2])
+    · rw [if_neg hb] at h1 h2
+      rw [← h1, ← h2]
+
+open SqiModel.Challenge in
+/-- **binding, sqisigndim2, from SHAKE collision-freeness on distinct byte strings**: if `s` is accepted for (pk, m) and
+    (j(pk'), m') ≠ (j(pk), m), then `s` is rejected for (pk', m') — provided the two hash inputs, which are then distinct
+    byte strings (injective encoding, widths `w = FP2_ENCODED_BYTES`), do not collide under `b ↦ leNat (xof b (8·nwords))` -/
+theorem binding_msg_pk_dim2_shake (xof : List UInt8 → Nat → List UInt8) (nwords w : Nat)
+    (g : Lvl → RawPk → RawSig → Bool) (K : Lvl) (s : RawSig) (pk pk' : RawPk) (o o' : OracleDim2)
+    (jcom jpk jcom' jpk' m m' : List UInt8)
+    (hw : jcom.length = w ∧ jpk.length = w ∧ jcom'.length = w ∧ jpk'.length = w)
+    (ho : o.h = ((hashToChallenge xof nwords 0 jcom jpk m).2 : Int))
+    (ho' : o'.h = ((hashToChallenge xof nwords 0 jcom' jpk' m').2 : Int))
+    (hcr : NoCollisionOn (fun b => (leNat (xof b (8 * nwords)) : Int)) (hashInput jcom jpk m) (hashInput jcom' jpk' m'))
+    (hacc : verifyDim2 g true K pk s o = true) (hne : (jpk', m') ≠ (jpk, m)) :
+    verifyDim2 g true K pk' s o' = false := by
+  have hbytes : hashInput jcom jpk m ≠ hashInput jcom' jpk' m' := by
+    intro e
+    obtain ⟨_, e2, e3⟩ := SqiProofs.Challenge.hashInput_inj w _ _ _ _ _ _ hw.1 hw.2.2.1 hw.2.1 hw.2.2.2 e
+    exact hne (by rw [e2, e3])
+  have hh := hcr hbytes
+  refine not_both_accept_dim2 g K s pk pk' o o' ?_ hacc
+  rw [ho, ho']
+  simpa [hashToChallenge, challengeDigits, iter] using hh
+
+open SqiModel.Challenge in
+/-- **binding, heuristic variant (`hint_b = 0`)**: the compared value is the challenge modulo 2^len on either codomain, so
+    the no-collision hypothesis is on the truncated, `iters`-fold re-hashed digest for the (up to four) pairs of distinct
+    byte strings that can be compared -/
+theorem binding_msg_pk_heur_shake (xof : List UInt8 → Nat → List UInt8) (nwords iters w : Nat)
+    (g : Lvl → RawPk → RawSigH → Bool) (K : Lvl) (s : RawSigH) (hb : s.hintB = 0) (pk pk' : RawPk) (o o' : OracleHeur)
+    (j1 j2 jpk j1' j2' jpk' m m' : List UInt8)
+    (hw : j1.length = w ∧ j2.length = w ∧ jpk.length = w ∧ j1'.length = w ∧ j2'.length = w ∧ jpk'.length = w)
+    (ho : o.h = ((hashToChallenge xof nwords iters j1 jpk m).2 : Int) ∧ o.h2 = ((hashToChallenge xof nwords iters j2 jpk m).2 : Int))
+    (ho' : o'.h = ((hashToChallenge xof nwords iters j1' jpk' m').2 : Int) ∧
+           o'.h2 = ((hashToChallenge xof nwords iters j2' jpk' m').2 : Int))
+    (hcr : ∀ a ∈ [j1, j2], ∀ a' ∈ [j1', j2'],
+      NoCollisionOn (fun b => ((leNat (iter (fun d => xof d (8 * nwords)) iters (xof b (8 * nwords))) : Nat) : Int) % 2 ^ K.heurChall)
+        (hashInput a jpk m) (hashInput a' jpk' m'))
+    (hacc : verifyHeur g true K pk s o = true) (hne : (jpk', m') ≠ (jpk, m)) :
+    verifyHeur g true K pk' s o' = false := by
+  cases hv : verifyHeur g true K pk' s o'
+  · rfl
+  · exfalso
+    obtain ⟨_, _, _, _, h1⟩ := (accept_iff_heur g K pk s o).1 hacc
+    obtain ⟨_, _, _, _, h2⟩ := (accept_iff_heur g K pk' s o').1 hv
+    rw [challEqHeur_hintB0 K s _ _ hb] at h1 h2
+    rw [ho.1, ho.2] at h1
+    rw [ho'.1, ho'.2] at h2
+    have key : ∀ a ∈ [j1, j2], ∀ a' ∈ [j1', j2'], a.length = w → a'.length = w →
+        ((hashToChallenge xof nwords iters a jpk m).2 : Int) % 2 ^ K.heurChall ≠
+        ((hashToChallenge xof nwords iters a' jpk' m').2 : Int) % 2 ^ K.heurChall := by
+      intro a ha a' ha' hla hla'
+      have hbytes : hashInput a jpk m ≠ hashInput a' jpk' m' := by
+        intro e
+        obtain ⟨_, e2, e3⟩ := SqiProofs.Challenge.hashInput_inj w _ _ _ _ _ _ hla hla' hw.2.2.1 hw.2.2.2.2.2 e
+        exact hne (by rw [e2, e3])
+      have := hcr a ha a' ha' hbytes
+      simpa [hashToChallenge, challengeDigits] using this
+    rcases h1 with h1 | h1 <;> rcases h2 with h2 | h2
+    · exact key j1 (by simp) j1' (by simp) hw.1 hw.2.2.2.1 (h1.symm.trans h2)
+    · exact key j1 (by simp) j2' (by simp) hw.1 hw.2.2.2.2.1 (h1.symm.trans h2)
+    · exact key j2 (by simp) j1' (by simp) hw.2.1 hw.2.2.2.1 (h1.symm.trans h2)
+    · exact key j2 (by simp) j2' (by simp) hw.2.1 hw.2.2.2.2.1 (h1.symm.trans h2)
 
 end binding
 
@@ -257,6 +349,47 @@ theorem repaired_rejects_zero_matrix_dim2 (g : Lvl → RawPk → RawSig → Bool
 /-- non-vacuity of `OracleSoundP1` / the structural theorems: an invertible matrix passes the three tests -/
 example : testOrderTwoF 130 (pt 130 3 2) ∧ testOrderTwoF 130 (pt 130 4 5) ∧ testOrderTwoF 130 (pt 130 3 2 - pt 130 4 5) :=
   (kernel_orders_iff_det_odd 130 (by norm_num) 3 4 2 5).2 (by decide)
+
+/-! ### why each order test matters differently (measured behaviour of the chain, stated as hypotheses)
+
+Measured on the real code (tools/props/c02.py, families with valid public hints; seeded change C02-m2):
+  * T1.P1 = O (first column of the matrix zero) and the T1.P1 test missing: the (2,2)-chain degenerates to the all-zero theta
+    null point, `splitting_comput` reports it as split, the recovered commitment is the record (A : C) = (0 : 0) whose encoded
+    j-invariant is 0 — so the oracle returns `split = true` and `h = H(0 ‖ j(pk) ‖ m)`, a value computable in advance;
+  * T2.P1 = O or T1−T2 = O on the first factor, or a short / singular point on the second factor, with the corresponding test
+    missing: the chain reports "not split" (`split = false`), every such run was rejected.
+The first item turns into a forgery in the model (`forgeable_if_T1P1_unchecked`), the second into a rejection
+(`rejected_if_not_split`); that the chain behaves this way is an observation about the theta formulas, not a theorem. -/
+
+/-- the masked decision with all six tests is the decision of the current code -/
+theorem verifyDim2Masked_all (g : Lvl → RawPk → RawSig → Bool) (K : Lvl) (pk : RawPk) (s : RawSig) (o : OracleDim2) :
+    verifyDim2Masked g OrderMask.all K pk s o = verifyDim2 g true K pk s o := by
+  simp [verifyDim2Masked, verifyDim2, OrderMask.all, OracleDim2.ordAll, Bool.and_assoc]
+
+/-- a verifier that performs every test except the one on T1.P1 accepts the signature with first column zero and the
+    challenge precomputed for the degenerate commitment — *given* the measured behaviour of the degenerate chain
+    (`hdeg`: the other five tests pass, the chain "splits", the recomputed hash is the constant `h0`) -/
+theorem forgeable_if_T1P1_unchecked (g : Lvl → RawPk → RawSig → Bool) (K : Lvl) (pk : RawPk) (s : RawSig) (o : OracleDim2) (h0 : Int)
+    (hg : g K pk s = true) (htrl : s.trl ≤ 0 ∨ o.kerOk = true) (hb : s.challB = 0) (hch : s.chall = h0)
+    (hdeg : o.t2p1 = true ∧ o.t12p1 = true ∧ o.t1p2 = true ∧ o.t2p2 = true ∧ o.t12p2 = true ∧ o.split = true ∧ o.h = h0) :
+    verifyDim2Masked g ⟨false, true, true, true, true, true⟩ K pk s o = true := by
+  obtain ⟨a, b, c, d, e, f, hh⟩ := hdeg
+  have hk : (decide (s.trl ≤ 0) || o.kerOk) = true := by
+    rcases htrl with h | h
+    · simp [h]
+    · simp [h]
+  simp [verifyDim2Masked, hg, hk, a, b, c, d, e, f, hh, challEqDim2, hb, hch]
+
+/-- …whereas a chain that reports "not split" is rejected whatever tests are performed -/
+theorem rejected_if_not_split (g : Lvl → RawPk → RawSig → Bool) (mk : OrderMask) (K : Lvl) (pk : RawPk) (s : RawSig)
+    (o : OracleDim2) (h : o.split = false) : verifyDim2Masked g mk K pk s o = false := by
+  simp [verifyDim2Masked, h]
+
+/-- …and with the T1.P1 test in place the first-column-zero family is rejected (sound oracle: T1.P1 = O has not full order) -/
+theorem first_column_zero_rejected (g : Lvl → RawPk → RawSig → Bool) (K : Lvl) (pk : RawPk) (s : RawSig) (o : OracleDim2)
+    (k : ℕ) (hk : 1 ≤ k) (hs : OracleSoundP1 k s o) (h0 : s.m00 = 0 ∧ s.m10 = 0) :
+    verifyDim2 g true K pk s o = false :=
+  structural_forgery_rejected_trl0 g K pk s o k hk hs (by rw [h0.1, h0.2]; simp)
 
 /-! ## 5. NIST-style entry points -/
 
